@@ -72,7 +72,21 @@ pub fn run_c15(ctx: &Ctx) -> Report {
 		.filter(|t| fr.valid(Kind::Ri, t))
 		.collect();
 		total.count(&format!("{}_authority_spelling_values", f.name()), dom2.len() as u64);
-		for dom in [&dom, &dom2] {
+		// third domain: segments of the same WRITTEN length whose decodings are prefixes of one another
+		// (%61 / abc / a), in the compared directories and as last segments
+		let dom3: Vec<Vec<u8>> = domains::references(
+			&o(&["s"]),
+			&o(&["h"]),
+			&domains::paths(&["%61", "abc", "a", "%41", "x"].iter().map(|s| domains::b(s)).collect::<Vec<_>>(), 2).into_iter().filter(|p| p.starts_with(b"/")).collect::<Vec<_>>(),
+			&[None],
+			&[None, Some(domains::b("f"))],
+		)
+		.into_iter()
+		.map(|(t, _)| t)
+		.filter(|t| fr.valid(Kind::Ri, t))
+		.collect();
+		total.count(&format!("{}_written_length_values", f.name()), dom3.len() as u64);
+		for dom in [&dom, &dom2, &dom3] {
 		let shards = 128usize;
 		let r = run_shards(ctx, shards, |si| {
 			let mut r = Report::new();
